@@ -19,7 +19,8 @@ def seeds_of(prop):
         for s in meta['seeds']:
             by = s.get('checked_by', [meta['property']])
             if prop in by and not s.get('neutralised_by'):
-                out.append((meta['property'] + '/' + s['name'], os.path.join(os.path.dirname(mp), s['patch']), 'break'))
+                ad = os.path.join(os.path.dirname(mp), s['name'] + '.adapted.diff')
+                out.append((meta['property'] + '/' + s['name'], ad if os.path.exists(ad) else os.path.join(os.path.dirname(mp), s['patch']), 'break'))
     for p in sorted(glob.glob(os.path.join(V, 'seeded', 'own', prop + '_*.diff'))):
         out.append(('own/' + os.path.basename(p)[:-5], p, 'equiv' if p.endswith('.equiv.diff') else 'break'))
     ip = os.path.join(V, 'seeded', 'regress', 'index.json')
